@@ -171,35 +171,35 @@ var Epoch = time.Date(2031, 3, 1, 0, 0, 0, 0, time.UTC)
 
 // Profile selects the configuration of a World.
 type Profile struct {
-	JWTAccess          bool     `json:"jwt_access,omitempty"`
-	RefreshScopes      []string `json:"refresh_scopes"` // nil => fosite default? we always set explicitly
-	RefreshScopesUnset bool     `json:"refresh_scopes_unset,omitempty"`
-	EnforcePKCE        bool     `json:"enforce_pkce,omitempty"`
-	EnforcePKCEPublic  bool     `json:"enforce_pkce_public,omitempty"`
-	PKCEPlain          bool     `json:"pkce_plain,omitempty"`
-	Tx                 bool     `json:"tx,omitempty"`
-	ContractDevice     bool     `json:"contract_device,omitempty"`
-	Bcrypt             bool     `json:"bcrypt,omitempty"`
-	ScopeStrategy      string   `json:"scope_strategy,omitempty"` // "", exact, wildcard, hierarchic
-	AudStrategy        string   `json:"aud_strategy,omitempty"`   // "", default, exact
-	DisableRTValidation bool    `json:"disable_rt_validation,omitempty"`
-	PAREnforced        bool     `json:"par_enforced,omitempty"`
-	PARPrefix          string   `json:"par_prefix,omitempty"`
-	ATLifespan         int      `json:"at_lifespan,omitempty"` // seconds; 0 => 3600
-	RTLifespan         int      `json:"rt_lifespan,omitempty"` // seconds; 0 => 30 days; -1 unlimited
-	CodeLifespan       int      `json:"code_lifespan,omitempty"`
-	IDKey              string   `json:"id_key,omitempty"` // key file for ID tokens / JWT ATs (default ec256a)
-	Debug              bool     `json:"debug,omitempty"`
-	LegacyErrors       bool     `json:"legacy_errors,omitempty"`
-	JWTBearerSkipAuth  bool     `json:"jwt_bearer_skip_auth,omitempty"`
-	JTIOptional        bool     `json:"jti_optional,omitempty"`
-	IATOptional        bool     `json:"iat_optional,omitempty"`
-	MinEntropy         int      `json:"min_entropy,omitempty"`
-	GlobalSecret       string   `json:"global_secret,omitempty"`
-	RotatedSecrets     []string `json:"rotated_secrets,omitempty"`
-	TokenEntropy       int      `json:"token_entropy,omitempty"`
-	HMACHash           string   `json:"hmac_hash,omitempty"` // "", sha256, sha512
-	Seed               uint64   `json:"seed,omitempty"`
+	JWTAccess           bool     `json:"jwt_access,omitempty"`
+	RefreshScopes       []string `json:"refresh_scopes"` // nil => fosite default? we always set explicitly
+	RefreshScopesUnset  bool     `json:"refresh_scopes_unset,omitempty"`
+	EnforcePKCE         bool     `json:"enforce_pkce,omitempty"`
+	EnforcePKCEPublic   bool     `json:"enforce_pkce_public,omitempty"`
+	PKCEPlain           bool     `json:"pkce_plain,omitempty"`
+	Tx                  bool     `json:"tx,omitempty"`
+	ContractDevice      bool     `json:"contract_device,omitempty"`
+	Bcrypt              bool     `json:"bcrypt,omitempty"`
+	ScopeStrategy       string   `json:"scope_strategy,omitempty"` // "", exact, wildcard, hierarchic
+	AudStrategy         string   `json:"aud_strategy,omitempty"`   // "", default, exact
+	DisableRTValidation bool     `json:"disable_rt_validation,omitempty"`
+	PAREnforced         bool     `json:"par_enforced,omitempty"`
+	PARPrefix           string   `json:"par_prefix,omitempty"`
+	ATLifespan          int      `json:"at_lifespan,omitempty"` // seconds; 0 => 3600
+	RTLifespan          int      `json:"rt_lifespan,omitempty"` // seconds; 0 => 30 days; -1 unlimited
+	CodeLifespan        int      `json:"code_lifespan,omitempty"`
+	IDKey               string   `json:"id_key,omitempty"` // key file for ID tokens / JWT ATs (default ec256a)
+	Debug               bool     `json:"debug,omitempty"`
+	LegacyErrors        bool     `json:"legacy_errors,omitempty"`
+	JWTBearerSkipAuth   bool     `json:"jwt_bearer_skip_auth,omitempty"`
+	JTIOptional         bool     `json:"jti_optional,omitempty"`
+	IATOptional         bool     `json:"iat_optional,omitempty"`
+	MinEntropy          int      `json:"min_entropy,omitempty"`
+	GlobalSecret        string   `json:"global_secret,omitempty"`
+	RotatedSecrets      []string `json:"rotated_secrets,omitempty"`
+	TokenEntropy        int      `json:"token_entropy,omitempty"`
+	HMACHash            string   `json:"hmac_hash,omitempty"` // "", sha256, sha512
+	Seed                uint64   `json:"seed,omitempty"`
 }
 
 type World struct {
@@ -267,31 +267,31 @@ func NewWorld(p Profile) *World {
 		secret = "global-secret-0-0123456789abcdef0123456789abcdef"
 	}
 	cfg := &fosite.Config{
-		GlobalSecret:                   []byte(secret),
-		AccessTokenLifespan:            time.Hour,
-		RefreshTokenLifespan:           30 * 24 * time.Hour,
-		AuthorizeCodeLifespan:          10 * time.Minute,
-		IDTokenLifespan:                time.Hour,
-		IDTokenIssuer:                  IssuerURL,
-		AccessTokenIssuer:              IssuerURL,
-		TokenURL:                       TokenURL,
-		EnforcePKCE:                    p.EnforcePKCE,
-		EnforcePKCEForPublicClients:    p.EnforcePKCEPublic,
-		EnablePKCEPlainChallengeMethod: p.PKCEPlain,
-		DisableRefreshTokenValidation:  p.DisableRTValidation,
-		IsPushedAuthorizeEnforced:      p.PAREnforced,
-		PushedAuthorizeRequestURIPrefix: p.PARPrefix,
-		SendDebugMessagesToClients:     p.Debug,
-		UseLegacyErrorFormat:           p.LegacyErrors,
+		GlobalSecret:                         []byte(secret),
+		AccessTokenLifespan:                  time.Hour,
+		RefreshTokenLifespan:                 30 * 24 * time.Hour,
+		AuthorizeCodeLifespan:                10 * time.Minute,
+		IDTokenLifespan:                      time.Hour,
+		IDTokenIssuer:                        IssuerURL,
+		AccessTokenIssuer:                    IssuerURL,
+		TokenURL:                             TokenURL,
+		EnforcePKCE:                          p.EnforcePKCE,
+		EnforcePKCEForPublicClients:          p.EnforcePKCEPublic,
+		EnablePKCEPlainChallengeMethod:       p.PKCEPlain,
+		DisableRefreshTokenValidation:        p.DisableRTValidation,
+		IsPushedAuthorizeEnforced:            p.PAREnforced,
+		PushedAuthorizeRequestURIPrefix:      p.PARPrefix,
+		SendDebugMessagesToClients:           p.Debug,
+		UseLegacyErrorFormat:                 p.LegacyErrors,
 		GrantTypeJWTBearerCanSkipClientAuth:  p.JWTBearerSkipAuth,
 		GrantTypeJWTBearerIDOptional:         p.JTIOptional,
 		GrantTypeJWTBearerIssuedDateOptional: p.IATOptional,
 		GrantTypeJWTBearerMaxDuration:        time.Hour,
-		MinParameterEntropy:            p.MinEntropy,
-		TokenEntropy:                   p.TokenEntropy,
-		DeviceVerificationURL:          IssuerURL + "/device",
-		ScopeStrategy:                  fosite.HierarchicScopeStrategy,
-		AudienceMatchingStrategy:       fosite.DefaultAudienceMatchingStrategy,
+		MinParameterEntropy:                  p.MinEntropy,
+		TokenEntropy:                         p.TokenEntropy,
+		DeviceVerificationURL:                IssuerURL + "/device",
+		ScopeStrategy:                        fosite.HierarchicScopeStrategy,
+		AudienceMatchingStrategy:             fosite.DefaultAudienceMatchingStrategy,
 	}
 	for _, r := range p.RotatedSecrets {
 		cfg.RotatedGlobalSecrets = append(cfg.RotatedGlobalSecrets, []byte(r))
